@@ -196,7 +196,7 @@ def r9(body):
 
 @rule("R10", "let mut C = |p: T| { B }; ... C(&mut p); -> closure definition removed, each call replaced by { B }   [inlining; legal when parameter and argument have the same name and the closure is called at most once per path]")
 def r10(body):
-    m = re.search(r"\blet\s+mut\s+(\w+)\s*=\s*\|\s*(\w+)\s*:\s*&mut\s+[^|]+\|\s*\{", body)
+    m = re.search(r"\blet\s+(?:mut\s+)?(\w+)\s*=\s*\|\s*(\w+)\s*:\s*&mut\s+[^|]+\|\s*\{", body)
     if not m:
         return body, 0
     name, param = m.group(1), m.group(2)
@@ -219,18 +219,31 @@ def r10(body):
     # side conditions: every use of the closure is `name(&mut param);`
     rest = body[:m.start()] + _blank_keep_nl(body[m.start():k]) + body[k:]
     uses = list(re.finditer(r"\b%s\b" % re.escape(name), rest))
-    calls = list(re.finditer(r"\b%s\(\s*&mut\s+%s\s*\)\s*;" % (re.escape(name), re.escape(param)), rest))
+    calls = list(re.finditer(r"\b%s\(\s*(&mut\s+)?(\w+)\s*\)\s*;" % re.escape(name), rest))
     if len(uses) != len(calls) or not calls:
         return body, 0
     flat = " ".join(block.split())
     out = rest
     for c in reversed(calls):
-        out = out[:c.start()] + _pad(c.group(0), flat) + out[c.end():]
+        arg = c.group(2)
+        blk = flat
+        if c.group(1) is None:
+            # called as C(x) with x: &mut T (a reborrow): the parameter is renamed to the argument
+            if arg != param:
+                blk = re.sub(r"\b%s\b" % re.escape(param), arg, flat)
+        elif arg != param:
+            return body, 0
+        out = out[:c.start()] + _pad(c.group(0), blk) + out[c.end():]
     return out, len(calls)
 
 
 def _blank_keep_nl(s):
     return "\n" * s.count("\n")
+
+
+@rule("R18", "String::from(S) -> vx_string_from(S)   [trusted std contract: the String holds the same text]")
+def r18(body):
+    return _sub(r"\bString::from\(\s*(\w+)\s*\)", lambda m: "vx_string_from(%s)" % m.group(1), body)
 
 
 # rules that are purely syntactic proof devices are applied only when a unit asks for them
